@@ -2,17 +2,17 @@
 // A generic `F: FnMut(&T)` parameter can interact with the walker only by being called. The walker is verified against
 // the universal recorder below: every call `f(x)` becomes `f.visit(x)`, which appends x to a ghost log. What the walker
 // guarantees for this recorder (the log grows by exactly the contract sequence) it guarantees for every closure.
-pub trait TypeVisitor {
+trait TypeVisitor {
     spec fn log(&self) -> Seq<ast::Type>;
     fn visit(&mut self, t: &ast::Type)
         ensures final(self).log() == old(self).log().push(*t);
 }
-pub trait MethodVisitor {
+trait MethodVisitor {
     spec fn log(&self) -> Seq<ast::Method>;
     fn visit(&mut self, m: &ast::Method)
         ensures final(self).log() == old(self).log().push(*m);
 }
-pub trait ArgVisitor {
+trait ArgVisitor {
     spec fn log(&self) -> Seq<(ast::Method, ast::Arg)>;
     fn visit(&mut self, m: &ast::Method, a: &ast::Arg)
         ensures final(self).log() == old(self).log().push((*m, *a));
@@ -20,7 +20,10 @@ pub trait ArgVisitor {
 // mutable variant: the callback sees the node as it is when offered, may change it (as its step relation allows), keeps
 // its children (frame assumed of the callback; proved for the closure of resolve_types), and maintains an invariant of
 // its own choosing between visits
-pub trait TypeMutVisitor {
+trait TypeMutVisitor {
+    type Fixed;                                   // whatever the callback never changes (its immutable captures)
+    #[verifier::prophetic]
+    spec fn fixed(&self) -> Self::Fixed;
     spec fn log(&self) -> Seq<ast::Type>;
     spec fn inv(&self) -> bool;
     spec fn step_fn(&self) -> spec_fn(ast::Type, ast::Type) -> bool;
@@ -31,5 +34,6 @@ pub trait TypeMutVisitor {
             final(self).log() == old(self).log().push(*old(t)),
             final(t).generic_types == old(t).generic_types,
             (old(self).step_fn())(*old(t), *final(t)),
-            final(self).step_fn() == old(self).step_fn();
+            final(self).step_fn() == old(self).step_fn(),
+            final(self).fixed() == old(self).fixed();
 }
